@@ -450,9 +450,9 @@ impl Property for C04 {
         // (b) wire monitor over a whole BMC or PDR conversation of a (smaller) system
         let use_pdr = crng.chance(1, 3);
         let sys2 = if use_pdr {
-            // (PDR run length grows with 2^(state bits): 7 bits keep every run far below the
-            // event budget)
-            gen_bounded_system(&mut rng, 7, 3, true, 8, |_| {})
+            // (PDR run length grows with 2^(state bits) and has a heavy tail: 6 bits keep every
+            // run far below the event budget)
+            gen_bounded_system(&mut rng, 6, 3, true, 8, |_| {})
         } else {
             gen_system(&mut rng, 8, 3, false, |_| {})
         };
